@@ -333,8 +333,122 @@ def c09_apply(fp, root, model, parts, op, step, info, order=None, order0=None):
         raise ValueError(kind)
 
 
+# ---- third family: partition VALUE TYPES (the text a value gets in the directory name vs. the text overwrite matches it with)
+C09_TYPED = {          # kind -> three values (two written originally, the third is a partition nobody has yet)
+    "datetime64 midnight": lambda: list(pd.to_datetime(["2020-01-01", "2021-06-01", "2022-02-02"])),
+    "datetime64 with time": lambda: list(pd.to_datetime(["2020-01-01 12:00:00", "2021-06-01 01:02:03", "2022-02-02 23:59:59"])),
+    "datetime64 sub-second": lambda: list(pd.to_datetime(["2020-01-01 12:00:00.000123", "2021-06-01 00:00:00.5", "2022-02-02 00:00:00.000001"])),
+    "float32 inexact": lambda: [np.float32(0.1), np.float32(1 / 3), np.float32(2.7)],
+    "float64": lambda: [0.1, 2.5, -1e-7],
+    "bool": lambda: [True, False, None],
+    "int32": lambda: [np.int32(7), np.int32(-70000), np.int32(8)],
+    "str": lambda: ["a", "True", "1.0"],
+}
+C09_TYPED_DTYPE = {"float32 inexact": "float32", "int32": "int32", "bool": "bool"}
+
+
+def c09_typed_frame(kind, idxs, step):
+    vals = C09_TYPED[kind]()
+    col = [vals[i] for i in idxs]
+    dt = C09_TYPED_DTYPE.get(kind)
+    p = pd.Series(col, dtype=dt) if dt else pd.Series(col)
+    return pd.DataFrame({"x": np.arange(step * 100, step * 100 + len(idxs), dtype="int64"), "p": p})
+
+
+def c09_typed_index(kind, v):
+    """which of the kind's values is the value read back from the partition column (None if none)"""
+    vals = C09_TYPED[kind]()
+    for i, w in enumerate(vals):
+        if w is None:
+            continue
+        try:
+            if kind.startswith("datetime64"):
+                ok = pd.Timestamp(v) == pd.Timestamp(w)
+            elif kind.startswith("float"):
+                ok = abs(float(v) - float(w)) <= 1e-6 * max(1.0, abs(float(w)))
+            elif kind == "bool":
+                ok = (str(v).lower() == "true") == bool(w) and str(v).lower() in ("true", "false")
+            elif kind == "int32":
+                ok = int(v) == int(w)
+            else:
+                ok = str(v) == str(w)
+        except Exception:
+            ok = False
+        if ok:
+            return i
+    return None
+
+
+def c09_typed_run(fp, spec, root):
+    """hive dataset partitioned on ONE column of the given value type; ops: ('append'|'overwrite', [value indices]).
+    model: row id -> value index.  After every step: read-back ids and their partition value == model; referenced files
+    exist; no unreferenced part.* file."""
+    kind = spec["typed"]
+    info = {"collision": False, "refused": 0, "steps": 0}
+    ds = os.path.join(root, "ds")
+    model = {}
+    for step, op in enumerate(spec["ops"]):
+        df = c09_typed_frame(kind, op[1], step)
+        new = {int(x): i for x, i in zip(df["x"], op[1])}
+        try:
+            if op[0] == "write":
+                fp.write(ds, df, file_scheme="hive", partition_on=["p"])
+                model = dict(new)
+            else:
+                pf = fp.ParquetFile(ds)
+                paths = [rg.columns[0].file_path for rg in pf.row_groups]
+                if op[0] == "overwrite":
+                    # region predicate of the known rename defect, on the order the library documents (see c09_apply)
+                    dir_of = {}
+                    for i, pth in enumerate(paths):
+                        one = pf[i].to_pandas()
+                        for v in one["p"]:
+                            k = c09_typed_index(kind, v)
+                            if k is not None:
+                                dir_of[k] = c09_dirname(pth)
+                    nums = [c09_partnum(x) for x in paths if c09_partnum(x) is not None]
+                    off = max(nums) + 1 if nums else 0
+                    newp = [dir_of.get(k, "p=<new %d>" % k) + "/part.%d.parquet" % off for k in sorted(set(op[1]))]
+                    starts = {}
+                    for i, x in enumerate(paths):
+                        starts.setdefault(c09_dirname(x), i)
+                    merged = sorted(paths + newp, key=lambda x: starts.get(c09_dirname(x), len(paths)))
+                    nd = set(c09_dirname(x) for x in newp)
+                    if c09_collision([x for x in merged if not (x in paths and c09_dirname(x) in nd)]):
+                        info["collision"] = True
+                fp.write(ds, df, file_scheme="hive", partition_on=["p"], append=True if op[0] == "append" else "overwrite")
+                if op[0] == "overwrite":
+                    model = {x: i for x, i in model.items() if i not in set(op[1])}
+                model.update(new)
+        except Exception as e:
+            return f"step {step} {op}: operation raised {type(e).__name__}: {str(e)[:200]}", info
+        info["steps"] += 1
+        try:
+            pf = fp.ParquetFile(ds)
+            got = pf.to_pandas()
+            have = {int(x): c09_typed_index(kind, v) for x, v in zip(got["x"], got["p"])} if len(got) else {}
+            if len(got) != len(have) or have != model:
+                return (f"after step {step} {op}: content differs from model: row id -> partition value read "
+                        f"{sorted(have.items())} (rows {len(got)}) expected {sorted(model.items())}"), info
+            ref = set(rg.columns[0].file_path for rg in pf.row_groups)
+            disk = set()
+            for r, _ds, fs in os.walk(ds):
+                for fn in fs:
+                    if fn.startswith("part."):
+                        disk.add(os.path.relpath(os.path.join(r, fn), ds).replace(os.sep, "/"))
+            if ref - disk:
+                return f"after step {step} {op}: referenced files missing {sorted(ref - disk)}", info
+            if disk - ref:
+                return f"after step {step} {op}: unreferenced part files left on disk {sorted(disk - ref)}", info
+        except Exception as e:
+            return f"after step {step} {op}: check raised {type(e).__name__}: {str(e)[:200]}", info
+    return None, info
+
+
 def c09_run(fp, spec, root):
     """-> (None | text of first failure, info)"""
+    if "typed" in spec:
+        return c09_typed_run(fp, spec, root)
     parts = spec["parts"]
     model = {}
     info = {"collision": False, "refused": 0, "steps": 0}
@@ -426,6 +540,25 @@ def enumerate_uv(tier):
     return specs
 
 
+TYPED_HISTORIES = [
+    [["overwrite", [0, 0]]],                                   # replace one existing partition
+    [["overwrite", [1, 2]]],                                   # one existing + one new partition
+    [["append", [0]], ["overwrite", [0]]],                     # partition held by two files
+    [["overwrite", [0]], ["overwrite", [0, 1]]],
+    [["append", [2, 1]], ["overwrite", [2]]],
+]
+
+
+def enumerate_typed(tier):
+    specs = []
+    for kind in C09_TYPED:
+        third = 2 if C09_TYPED[kind]()[2] is not None else 1          # bool has only two values
+        for h in TYPED_HISTORIES:
+            ops = [["write", [0, 0, 1, 1]]] + [[o, [min(i, third) if i < 2 or third == 2 else 1 for i in idx]] for o, idx in h]
+            specs.append({"typed": kind, "ops": ops})
+    return specs
+
+
 def enumerate_specs(tier, seed):
     specs = []
     for parts in PARTS:
@@ -441,6 +574,7 @@ def enumerate_specs(tier, seed):
                         continue        # quick: ALL pairs for the first original on partitioned datasets, a quarter otherwise
                     specs.append({"parts": parts, "ops": [init, a, b]})
     specs += enumerate_uv(tier)
+    specs += enumerate_typed(tier)
     if tier == "thorough":
         import random
         rng = random.Random(seed)
@@ -463,6 +597,10 @@ def opname(op):
 
 
 def features_of(spec, info):
+    if "typed" in spec:
+        return {"partition_on": "p", "partition_value_type": spec["typed"], "original": "write:typed[0,0,1,1]",
+                "ops": "|".join("%s:%s" % (o, "".join(map(str, idx))) for o, idx in spec["ops"][1:]),
+                "pnames_collision": bool(info["collision"]), "frame_columns": "natural", "original_columns": "natural"}
     return {"partition_on": ",".join(spec["parts"]), "original": opname(spec["ops"][0]),
             "ops": "|".join(opname(o) for o in spec["ops"][1:]), "pnames_collision": bool(info["collision"]),
             "frame_columns": spec.get("order") or "natural", "original_columns": spec.get("order0") or "natural"}
@@ -470,7 +608,7 @@ def features_of(spec, info):
 
 def snippet_of(spec):
     tail = "\n".join([
-        "SPEC['ops'] = [tuple(o) for o in SPEC['ops']]",
+        "SPEC['ops'] = [tuple(o) for o in SPEC['ops']] if 'typed' not in SPEC else SPEC['ops']",
         "root = tempfile.mkdtemp(prefix='verif-c09-')",
         "try:",
         "    WHAT, INFO = c09_run(fp, SPEC, root)",
@@ -515,7 +653,10 @@ def run_bounded(ctx):
         "operations (5 overwrites: one asymmetric partition (u,v), its mirror (v,u), both, one value of p, two new mirror "
         "partitions; 2 appends, 2 removals, 2 write_row_groups); all single operations everywhere, all pairs for the "
         "interleaved order on 2-column partitionings and a third of the overwrite-containing pairs elsewhere (thorough: "
-        "all pairs + seeded 4/5-step histories); plus the first family's frames on partition_on=(q,p) with permuted columns."))
+        "all pairs + seeded 4/5-step histories); plus the first family's frames on partition_on=(q,p) with permuted columns.  "
+        f"THIRD FAMILY (partition value types): one partition column of type {list(C09_TYPED)} (three values each, bool two), original "
+        f"4 rows over two values, then the {len(TYPED_HISTORIES)} histories {TYPED_HISTORIES} of append / append='overwrite' over value indices; after every step "
+        "row ids and the partition value read back per row == model, referenced files exist, no unreferenced part file."))
     specs = enumerate_specs(ctx.tier, ctx.seed)
     results = pool_map(_worker, specs, chunksize=8)
     for spec, (what, info) in zip(specs, results):
